@@ -10,6 +10,8 @@ HEADER = "From Qib Require Import TN.TNCheck.\n"
 
 SIG_LEAF_PERM = "contract_tree:single-leaf-scaffold:root-permutation-ignored"
 SIG_LEAF_TRACE = "contract_tree:single-leaf-scaffold:self-trace-assertion"
+SIG_LEAF_DIAG = "contract_tree:single-leaf-scaffold:two-legs-on-one-open-bond-refused"
+SIG_EMPTY = "contract_einsum:network-without-tensors-and-open-axes:einsum-without-operands"
 
 
 def D(shape, re, im=None):
@@ -106,7 +108,10 @@ def probe_net(desc):
             fails.append(("contract_einsum:not-the-defining-sum", "defining sum", "differs"))
     except Exception as e:
         out["einsum_exc"] = e
-        fails.append(("contract_einsum:exception:" + type(e).__name__, "contracts", repr(e)))
+        if net.num_tensors == 0 and net.num_open_axes == 0:
+            fails.append((SIG_EMPTY, "the scalar 1", repr(e)))
+        else:
+            fails.append(("contract_einsum:exception:" + type(e).__name__, "contracts", repr(e)))
     return out
 
 
@@ -128,6 +133,9 @@ def probe_tree(net, ref, scaffold, rng=None):
     except RuntimeError as e:
         if has_idle_bond(net.net) and "cannot track open axis" in str(e):
             return None, fails, "refused-idle-wire"
+        if leaf_root and "inconsistency when tracking open axis" in str(e):
+            fails.append((SIG_LEAF_DIAG, "contracts", "RuntimeError"))
+            return None, fails, "known"
         fails.append(("contract_tree:exception:RuntimeError", "contracts", repr(e)))
         return None, fails, "exception"
     except AssertionError as e:
@@ -232,6 +240,10 @@ def run(ctx):
             ctx.nontriv(repr(tn.to_jsonable(desc)))
         ctx.sample({"kind": name, "ntensors": nt, "features": sorted(feats),
                     "tensors": [[t[0], t[1], t[2]] for t in desc["tensors"]]})
+        if "einsum_exc" in o and "args" in o:
+            tids, tidx, idxout, amap = o["args"]
+            args = "(Some %s)" % ct.pair(tn.zl(tids), ct.lst([tn.nl(r) for r in tidx]), tn.nl(idxout), tn.nl(amap))
+            add("CEin %s %s %s None None" % (nterm, dterm, args), dict(inp, kind="einsum"))
         if "einsum" in o:
             tids, tidx, idxout, amap = o["args"]
             args = "(Some %s)" % ct.pair(tn.zl(tids), ct.lst([tn.nl(r) for r in tidx]), tn.nl(idxout), tn.nl(amap))
